@@ -75,7 +75,7 @@ impl Check for C04 {
         "C04"
     }
     fn plan(&self, tier: Tier) -> Plan {
-        let mut p = Plan::new(tier.pick(2000, 100_000), tier.pick(25.0, 420.0));
+        let mut p = Plan::new(tier.pick(16_000, 2_000_000), tier.pick(25.0, 360.0));
         p.mandatory = 1;
         p
     }
